@@ -640,6 +640,47 @@ impl C17 {
         }
         self.run_tetris_variant(g, listing, key, 2, cx);
         cx.tag("tetris-both-views");
+        // acyclic graphs whose edges are arrays handed over in `Layout::places` (they become instances only when the
+        // cell is placed): gridded -> raw lists every cell after the cells it places
+        if g.adj.iter().take(g.n).any(|a| *a != 0) && !g.cyclic_within(g.reachable(listing)) {
+            use tetris::array::{Array, ArrayInstance, Arrayable};
+            use tetris::placement::{Placeable, SepBy, Separation};
+            use tetris::{cell::Cell, layout::Layout, outline::Outline};
+            cx.stats.executions += 1;
+            cx.stats.transitions += listing.len() as u64;
+            let names: Vec<String> = (0..g.n).map(|i| format!("t{i}")).collect();
+            let ptrs: Vec<Ptr<Cell>> = (0..g.n).map(|i| Ptr::new(Cell::from(Layout::new(names[i].clone(), 0, Outline::rect(40 + i as isize, 40).unwrap())))).collect();
+            for i in 0..g.n {
+                for j in 0..g.n {
+                    if g.adj[i] & (1 << j) != 0 {
+                        let ai = ArrayInstance {
+                            name: format!("a{i}_{j}"),
+                            loc: (0, j as isize).into(),
+                            reflect_vert: false,
+                            reflect_horiz: false,
+                            array: Ptr::new(Array { name: format!("row{i}_{j}"), unit: Arrayable::Instance(ptrs[j].clone()), count: 2, sep: Separation::x(SepBy::UnitSpeced(tetris::coords::PrimPitches::x(50).into())) }),
+                        };
+                        ptrs[i].write().unwrap().layout.as_mut().unwrap().places.push(Placeable::Array(Ptr::new(ai)));
+                    }
+                }
+            }
+            let mut lib = tetris::library::Library::new("tlib");
+            for &i in listing {
+                lib.cells.push(ptrs[i].clone());
+            }
+            let res = guard(|| {
+                tetris::conv::raw::RawExporter::convert(lib, Self::empty_stack())
+                    .map(|p| p.read().unwrap().cells.iter().map(|c| Self::idx_of(&names, &c.read().unwrap().name)).collect::<Vec<usize>>())
+                    .map_err(|e| format!("{e:?}"))
+            });
+            self.judge(key, "tetris-to-raw+arrays-in-places", g, listing, res, cx);
+            cx.tag("tetris-arrays-in-places");
+            for p in &ptrs {
+                if let Ok(mut c) = p.write() {
+                    c.layout = None;
+                }
+            }
+        }
         // not yet placed: every instance after the first of its cell is placed relative to its predecessor
         if (0..g.n).any(|i| g.adj[i].count_ones() >= 2) {
             cx.stats.executions += 1;
@@ -741,6 +782,9 @@ impl C17 {
             self.run_place_listed(f, listing, listing.len(), true, key, cx);
             cx.tag("place-order-via-places");
         }
+        // the first listed instance named a second time, as a `Placeable::Instance` in `Layout::places`: still placed once
+        self.run_place_listed(f, listing, listing.len() + 1000, false, key, cx);
+        cx.tag("place-order-instance-named-twice");
         if listing.len() >= 2 {
             // the last instance of the listing exists but is not listed in the layout: it takes part only if some
             // listed instance is placed relative to it (directly or through a chain)
@@ -759,7 +803,9 @@ impl C17 {
                 g.adj[i] |= 1 << f[i];
             }
         }
-        let sfx = if via_places { "-via-places" } else if nlisted == listing.len() { "" } else { "-unlisted-target" };
+        let twice = nlisted >= 1000;
+        let nlisted = if twice { nlisted - 1000 } else { nlisted };
+        let sfx = if twice { "-named-twice" } else if via_places { "-via-places" } else if nlisted == listing.len() { "" } else { "-unlisted-target" };
         let listed: Vec<usize> = listing[..nlisted].to_vec();
         let mut lib = tetris::library::Library::new("plib");
         let unit = lib.cells.add(Layout::new("unit", 0, Outline::rect(3, 7).unwrap()));
@@ -781,6 +827,11 @@ impl C17 {
             if f[i] < n {
                 let to = Placeable::Instance(iptrs[f[i]].clone().unwrap());
                 iptrs[i].as_ref().unwrap().write().unwrap().loc = Place::Rel(RelativePlace { to, side: Side::Right, align: Align::Side(Side::Bottom), sep: Separation::default() });
+            }
+        }
+        if twice {
+            if let Some(p) = &iptrs[listing[0]] {
+                parent.places.push(Placeable::Instance(p.clone()));
             }
         }
         lib.cells.add(parent);
@@ -1023,7 +1074,7 @@ impl Driver for C17 {
         let m = tier.pick(3, 4);
         Describe {
             rule: format!(
-                "generic utils::DepOrder: every labelled digraph on 1..=4 nodes including self-loops (2^(n*n)) x every ordered non-empty sub-list of the nodes as the item slice (so reachable != all) and every listing that names a node more than once (up to n + 1 entries for n <= 3, up to 3 entries for n = 4); every loop-free digraph on 5 nodes (2^20) x {} listing orders. Embedded orderers through public entry points, every digraph on 1..={m} nodes with self-loops{} x every listing permutation, edges realised as instances / SREF+AREF / relative placements, raw and tetris graphs additionally with every sink cell abstract-only (no layout view) with every cell holding both an abstract and a layout view, and (raw DepOrder) with all cells going by one and the same name: raw DepOrder::order and Library::to_proto (cell list order), Library::from_gds (imported cell order), tetris Library::dep_order (and once more on the same library object after one more instance was added; and on the not yet placed library whose instances are placed relative to one another), tetris ProtoExporter::export, Placer::place (cell graph), and Placer::place over every functional relation graph on 1..={m} instances ((n+1)^n: chains, stars, trees, self-loops, cycles) x every listing permutation, each also with the last listed instance present but not listed in the layout (reachable only through a relation), and with the relatively placed instances handed over in Layout::places instead of Layout::instances. A state is (orderer, graph, listing); non-trivial = graph has at least one edge. Oracle: reachable set by DFS, cycle by Kahn elimination; Ok order must be exactly the reachable set, duplicate-free, every node after all its dependencies; reachable cycle => Err.",
+                "generic utils::DepOrder: every labelled digraph on 1..=4 nodes including self-loops (2^(n*n)) x every ordered non-empty sub-list of the nodes as the item slice (so reachable != all) and every listing that names a node more than once (up to n + 1 entries for n <= 3, up to 3 entries for n = 4); every loop-free digraph on 5 nodes (2^20) x {} listing orders. Embedded orderers through public entry points, every digraph on 1..={m} nodes with self-loops{} x every listing permutation, edges realised as instances / SREF+AREF / relative placements, raw and tetris graphs additionally with every sink cell abstract-only (no layout view) with every cell holding both an abstract and a layout view, and (raw DepOrder) with all cells going by one and the same name: raw DepOrder::order and Library::to_proto (cell list order), Library::from_gds (imported cell order), tetris Library::dep_order (and once more on the same library object after one more instance was added; and on the not yet placed library whose instances are placed relative to one another), tetris ProtoExporter::export, Placer::place (cell graph), RawExporter::convert on acyclic graphs whose edges are arrays handed over in Layout::places (raw cell order), and Placer::place over every functional relation graph on 1..={m} instances ((n+1)^n: chains, stars, trees, self-loops, cycles) x every listing permutation, each also with the last listed instance present but not listed in the layout (reachable only through a relation), with the relatively placed instances handed over in Layout::places instead of Layout::instances, and with the first listed instance named a second time in Layout::places. A state is (orderer, graph, listing); non-trivial = graph has at least one edge. Oracle: reachable set by DFS, cycle by Kahn elimination; Ok order must be exactly the reachable set, duplicate-free, every node after all its dependencies; reachable cycle => Err.",
                 if tier.is_thorough() { "all 120" } else { "8 (identity, reverse, 4 rotations, one shuffle)" },
                 if tier.is_thorough() { " and every digraph on 5 nodes without self-loops (2^20)" } else { "" }
             ),
